@@ -903,9 +903,8 @@ def classify_output(rc, out, timed_out=False):
         mm = re.search(r"Error defining function:\s*\n(.*)", out)
         return "verifier", "verifier", (mm.group(1) if mm else "")[:300]
     if m:
-        site = "%s:%s" % (norm_site(m.group(1)), m.group(2))
-        kind = "panic"
-        return kind, site, m.group(4)[:300]
+        site, loc = site_key(m.group(1), m.group(2), m.group(4))
+        return "panic", site, (m.group(4)[:260] + "  [at %s]" % loc)
     if "Cranelift Error" in out:
         return "cranelift-error", "cranelift-error", out[out.find("Cranelift Error"):][:300]
     if rc is not None and rc < 0:
@@ -1006,31 +1005,158 @@ def msg_sig(msg):
     return m[:48]
 
 
-def canon_panic_class(known, cls, msg, tolerance=30):
-    """Classes of crashes are `<prefix>:<file>:<line>`.  Hooks and repairs in /repo shift line numbers, so a
-    class that is not literally known is mapped to a known class of the SAME file with the SAME message
-    signature whose line is at most `tolerance` lines away; anything else stays a new class."""
-    m = re.match(r"^((?:panic|noerr-codegen-panic):)(.*):(\d+)$", cls)
-    if not m:
-        return cls
-    if any(f.get("class") == cls for f in known):
-        return cls
-    pre, path, line = m.group(1), m.group(2), int(m.group(3))
-    sig = msg_sig(msg)
-    best = None
-    for f in known:
-        km = re.match(r"^((?:panic|noerr-codegen-panic):)(.*):(\d+)$", f.get("class", ""))
-        if not km or km.group(2) != path:
-            continue
-        kmsg = (f.get("witness") or {}).get("message") or ""
-        if msg_sig(kmsg) != sig:
-            continue
-        d = abs(int(km.group(3)) - line)
-        if d <= tolerance and (best is None or d < best[0]):
-            best = (d, km.group(3))
-    if best:
-        return "%s%s:%s" % (pre, path, best[1])
-    return cls
+# ---- crash sites: (file, enclosing function, kind of panic, text of the panicking statement) ---------
+# Line numbers shift with every hook / repair in /repo, so a site is identified by things that do not:
+# the file, the name of the enclosing `fn` (found by scanning the source upwards from the reported
+# line, at run time, in the tree that was actually compiled), the kind of panic (from the message)
+# and the normalised source text of the statement at the reported line.  Two different panics in one
+# function differ in statement text and/or kind, so they stay different classes.  The line is kept
+# only as information (`loc`).
+
+_FN_RE = re.compile(r"^(\s*)(?:pub(?:\([^)]*\))?\s+)?(?:default\s+)?(?:const\s+)?(?:async\s+)?(?:unsafe\s+)?"
+                    r"(?:extern\s+\"[^\"]*\"\s+)?fn\s+([A-Za-z_][A-Za-z0-9_]*)")
+_src_cache = {}
+
+
+def resolve_source(path):
+    """file named in a panic message -> readable path (or None)"""
+    cands = [path]
+    if not os.path.isabs(path):
+        cands.append(os.path.join(C.REPO, path))
+    m = re.search(r"(crates/.+)$", path.replace("\\", "/"))
+    if m:
+        cands.append(os.path.join(C.REPO, m.group(1)))
+    for c in cands:
+        if os.path.isfile(c):
+            return c
+    return None
+
+
+def _source_lines(path):
+    real = resolve_source(path)
+    if real is None:
+        return None
+    try:
+        st = os.stat(real)
+        key = (real, st.st_mtime_ns, st.st_size)
+        if key not in _src_cache:
+            _src_cache[key] = open(real, encoding="utf-8", errors="replace").read().split("\n")
+        return _src_cache[key]
+    except OSError:
+        return None
+
+
+_STR_RE = re.compile(r'"(?:\\.|[^"\\])*"|\'(?:\\.|[^\'\\])\'')
+
+
+def _brace_seq(line):
+    l = _STR_RE.sub("", line)
+    c = l.find("//")
+    if c >= 0:
+        l = l[:c]
+    return [ch for ch in l if ch in "{}"]
+
+
+def enclosing_fn(lines, lineno):
+    """name of the innermost `fn` whose body is still open at line `lineno` (1-based).  Scanning upwards,
+    closing braces are matched against opening ones; an opening brace that matches nothing opens a
+    block around the line, and the header of that block (the lines above it up to the previous
+    statement end) is looked at: if it is a `fn` header, that is the function."""
+    if not lines or lineno < 1 or lineno > len(lines):
+        return "?"
+    skip = 0
+    for i in range(lineno - 2, -1, -1):
+        opened = False
+        for ch in reversed(_brace_seq(lines[i])):
+            if ch == "}":
+                skip += 1
+            elif skip > 0:
+                skip -= 1
+            else:
+                opened = True
+        if opened:
+            j = i
+            while j >= 0 and i - j < 40:
+                m = _FN_RE.match(lines[j])
+                if m:
+                    return m.group(2)
+                if j < i:
+                    t = lines[j].strip()
+                    if t.endswith(";") or t.endswith("}") or t.endswith("{") or t.endswith("},") or t == "":
+                        break
+                j -= 1
+    return "?"
+
+
+_GENERIC = re.compile(r"^(?:_ => |[A-Za-z_:]+(?:\(.*\))? => )?(?:unreachable!\(\)|todo!\(\)|unimplemented!\(\)|\.unwrap\(\)|panic!\(\))[,;]?$")
+
+
+def statement_text(lines, lineno):
+    """normalised text of the statement at the reported line; a line that only continues a method chain
+    (`.unwrap()`, `.expect(..)`) is extended upwards to the start of the chain; a generic or very short
+    statement (`_ => unreachable!(),`) is extended by the three preceding non-blank lines so that the
+    many identical ones of a large function stay apart"""
+    if not lines or lineno < 1 or lineno > len(lines):
+        return ""
+    i = lineno - 1
+    parts = [lines[i].strip()]
+    k = 0
+    while parts[0].startswith(".") and i > 0 and k < 6:
+        i -= 1
+        k += 1
+        parts.insert(0, lines[i].strip())
+    t = re.sub(r"\s+", " ", " ".join(parts))
+    if _GENERIC.match(t) or len(t) < 28:
+        ctx = []
+        j = i - 1
+        while j >= 0 and len(ctx) < 3:
+            if lines[j].strip():
+                ctx.insert(0, lines[j].strip())
+            j -= 1
+        t = t + "  <~ " + re.sub(r"\s+", " ", " | ".join(ctx))
+    return t
+
+
+def panic_kind(msg):
+    m = msg or ""
+    table = [("called `Option::unwrap()` on a `None`", "unwrap-none"), ("called `Result::unwrap()` on an `Err`", "unwrap-err"),
+             ("internal error: entered unreachable code", "unreachable"), ("index out of bounds", "index-oob"),
+             ("is out of bounds of", "str-index"), ("is not a char boundary", "str-boundary"),
+             ("out of range for slice", "slice-range"), ("slice index starts at", "slice-range"),
+             ("assertion failed", "assert"), ("assertion `left", "assert"), ("not yet implemented", "todo"),
+             ("not implemented", "unimplemented"), ("no entry found for key", "map-key"),
+             ("already borrowed", "borrow"), ("already mutably borrowed", "borrow")]
+    for pat, k in table:
+        if pat in m:
+            return k
+    mm = re.search(r"attempt to (\w+) with overflow", m)
+    if mm:
+        return "overflow-" + mm.group(1)
+    if "attempt to divide by zero" in m:
+        return "div-zero"
+    return "msg"
+
+
+def site_key(path, line, msg):
+    """-> (key, loc):  key = '<file>:<fn>:<kind>:<statement slug>-<hash6>' ; loc = '<file>:<line>' (information).
+    When the source cannot be read (std / rustc paths) the key falls back on the message signature."""
+    import hashlib
+    short = norm_site(path)
+    loc = "%s:%s" % (short, line)
+    lines = _source_lines(path)
+    kind = panic_kind(msg)
+    if lines is None:
+        sig = re.sub(r"[^A-Za-z0-9]+", "_", msg_sig(msg)).strip("_")[:40]
+        return "%s:?:%s:%s" % (short, kind, sig), loc
+    try:
+        ln = int(line)
+    except ValueError:
+        ln = 0
+    fn = enclosing_fn(lines, ln)
+    st = statement_text(lines, ln)
+    h = hashlib.sha256(st.encode()).hexdigest()[:6]
+    slug = re.sub(r"[^A-Za-z0-9]+", "_", st).strip("_")[:36]
+    return "%s:%s:%s:%s-%s" % (short, fn, kind, slug, h), loc
 
 
 def strip_timing(out):
